@@ -65,7 +65,9 @@ func (sc *Scanner) TokenError(tok ast.Token, msg string) *Error { return &Error{
 
 func (sc *Scanner) readNext() int {
 	ch, err := sc.reader.ReadByte()
-	if err == io.EOF {
+	if err != nil {
+		// io.EOF, or a reader that broke: either way there is no more input
+		// (treating a persistent error as a stream of NUL bytes never ends)
 		return EOF
 	}
 	return int(ch)
